@@ -730,6 +730,15 @@ impl<'a> GeneratorState<'a> {
                 }
                 variable => {
                     let v = self.checked_variable(variable, pos)?;
+                    // An inline function is never emitted: its name has no address
+                    if let Some(f) = self.compiler_state.functions.get(variable) {
+                        if f.inline {
+                            return Err(self.compiler_state.syntax_error(
+                                "An inline function has no address",
+                                pos,
+                            ));
+                        }
+                    }
                     let dummy = if let Expr::Nothing = **sub {
                         None
                     } else {
